@@ -1,5 +1,6 @@
 """C16 — sequence weights (PB, BLOSUM, GSC), %id filtering, single-linkage clustering, pairwise identity.
 Model: lean/EaselModel/Weights/*, theorems: Props/C16.lean, driver: Driver/C16.lean, harness: h_weights.c"""
+import re
 import struct
 from fractions import Fraction
 from vlib.engine import Prop, Failure
@@ -263,7 +264,7 @@ class C16(Prop):
         "jukesCantorMx_spec", "avgConnectivity_spec", "avgSubsetConnectivity_is",
         "quicksort_sorts", "quicksort_decreasing_weights", "idFilterAdv_keeps_preferred", "idFilterAdv_conscover", "idFilterAdv_random",
         "idFilterAdv_origorder", "consensus_by_all_selects", "consensus_by_rf_selects", "consensus_by_sample_selects",
-        "pbAdv_consensus_cascade", "average_sampling_in_bounds", "average_all_empty", "linkage_additive_ultrametric", "idFilterAdv_consensus_cascade", "linkage_cladesizes_root", "fragment_rule_documented", "pairId_text_digital_agree", "pairId_text_digital_agree_dna")]
+        "pbAdv_consensus_cascade", "average_sampling_in_bounds", "average_all_empty", "linkage_additive_ultrametric", "idFilterAdv_consensus_cascade", "linkage_cladesizes_root", "fragment_rule_documented", "pairId_text_digital_agree", "pairId_text_digital_agree_dna", "msaSingleLinkage_one_cluster_at_zero", "idFilterText_keeps_first_at_zero", "blosum_all_one_at_zero")]
     claimed = True
     technique = ("Lean 4 proof over the exact (Q) instance of a numeric-class-polymorphic executable model of esl_distance/esl_cluster/"
                  "esl_msacluster/esl_quicksort/esl_msaweight/esl_tree(UPGMA) + bit-exact differential correspondence of the Float instance "
@@ -335,6 +336,29 @@ class C16(Prop):
             "free-standing PairId incl. unaligned. non-trivial = at least 3 successful computing ops; distinct by output trace")
     diverge_is_violation = True    # every op is a deterministic function of the alignment that the model specifies bit-exactly
     quick_budget_s = 90
+
+    # ------------------------------------------------------------------ regenerated from the working tree
+    RULE_GAP = re.compile(r"\(float\)\s*ct\[apos\]\[msa->abc->K\]\s*/\s*\(float\)\s*tot\s*\)\s*<\s*symfrac")
+    RULE_RES = re.compile(r"\(float\)\s*\(\s*tot\s*-\s*ct\[apos\]\[msa->abc->K\]\s*\)\s*/\s*\(float\)\s*tot\s*\)\s*>=\s*symfrac")
+
+    def generated(self, ctx):
+        """the FORM of the consensus-column test in consensus_by_all()/consensus_by_sample(): the code as it stands tests the gap
+        fraction `gaps/tot < symfrac`; the header documents `residues/tot >= symfrac` (they differ when a column is exactly at
+        the threshold and for every symfrac != 0.5 — see /var/tmp/fixes-proposed/C16-symfrac-rule.patch). Whichever of the two
+        the working tree contains is what the driver and the monitor follow; an unrecognised form keeps the gap-fraction rule
+        and leaves the verdict to the differential run."""
+        import os
+        try: src = open(os.path.join(ctx.src, "esl_msaweight.c"), errors="replace").read()
+        except OSError: src = ""
+        self._residue_form = len(self.RULE_RES.findall(src)) >= 2 and not self.RULE_GAP.search(src)
+        body = ("/-! GENERATED by props/c16.py from esl_msaweight.c of the working tree — do not edit.\n"
+                "    Which consensus-column test `consensus_by_all` / `consensus_by_sample` contain:\n"
+                "    `false`: `(float) ct[apos][K] / (float) tot < symfrac` (gap fraction below symfrac);\n"
+                "    `true`:  `tot > 0 && (float) (tot - ct[apos][K]) / (float) tot >= symfrac` (residue fraction at least symfrac, as documented). -/\n"
+                "namespace EaselModel.Weights\n"
+                "def symfracResidueForm : Bool := %s\n"
+                "end EaselModel.Weights\n") % ("true" if self._residue_form else "false")
+        return {"EaselModel/Weights/SymfracRule.lean": body}
 
     # ------------------------------------------------------------------ generators
     def _symbols(self, rng, mode):
@@ -769,14 +793,13 @@ class C16(Prop):
         return out
 
     # ------------------------------------------------------------------ comparison
-    DIAG = ("rf=", "all=", "allcols=", "samp=", "nfrag=")
+    DIAG = ()     # the diagnostic fields of ESL_MSAWEIGHT_DAT are modelled too and compared exactly (round 4)
 
     def compare(self, ctx, case, impl_out, model_out):
-        """exact, except for freedoms the property leaves open (each is counted in the evidence, and the monitors judge
-        the implementation's own output in every such case):
+        """exact, except for freedoms the property leaves open (the monitors judge the implementation's own output in every
+        such case):
           * a weight vector may differ from the model's in rounding only (bit-equal or within 1e-9 relative);
-          * the diagnostic fields of ESL_MSAWEIGHT_DAT (how the consensus was found, fragment count) are not compared,
-            the consensus columns themselves are;
+          * (since round 4 the diagnostic fields of ESL_MSAWEIGHT_DAT — how the consensus was found, fragment counts — ARE compared);
           * eslMSA_HASWGTS may be raised where the model leaves it down (single-sequence early return);
           * cluster numbering, order among equal sort keys, the kept set of the filter (see _tolerated)."""
         def bump(k): ctx.stats[k] = ctx.stats.get(k, 0) + 1
@@ -998,6 +1021,8 @@ class C16(Prop):
                 for r_ in range(n):
                     if r_ not in ks and not any(aln.pidx(r_, k) >= maxid for k in kept):
                         return Failure("monitor", "IDFilter at %r dropped row %d although it reaches the threshold with no kept row" % (maxid, r_))
+                r_ = self._check_pref(aln, kv if w[0] == "idfilteradv" else {}, (int(kv.get("pref", 1)) if w[0] == "idfilteradv" else 1) if aln.mode != "text" else 3, kept, maxid, cnt)
+                if r_: return Failure("monitor", "%s at %r: %s" % (w[0], maxid, r_))
                 cnt(w[0]); continue
             if w[0] == "diffmx":
                 v = [undbits(x) for x in l.split()[1].split(",")]
@@ -1296,6 +1321,53 @@ class C16(Prop):
             else: cnt("tree-exact-oracle-skipped-ties")
         return None
 
+    def _cons_by_all(self, aln, ft, sf):
+        """consensus_by_all with the fragment rule of collect_counts (binary32 arithmetic as in the C code), 0-based columns"""
+        import math
+        rows, alen = aln.rows, len(aln.rows[0])
+        K, Kp = ABC[aln.mode]
+        minspan = int(math.ceil(f32(ft * alen)))
+        spans = []
+        for r in rows:
+            res = [j for j in range(alen) if aln.is_res(r[j])]
+            lp, rp = (res[0], res[-1]) if res else (alen, -1)
+            spans.append((0, alen - 1) if rp - lp + 1 >= minspan else (lp, rp))
+        cols = []
+        for j in range(alen):
+            gap = sum(1 for r, (a, b) in zip(rows, spans) if a <= j <= b and r[j] == K)
+            tot = sum(1 for r, (a, b) in zip(rows, spans) if a <= j <= b and r[j] < Kp - 2)
+            if tot > 0 and ((f32((tot - gap) / tot) >= sf) if getattr(self, "_residue_form", False) else (f32(gap / tot) < sf)): cols.append(j)
+        return cols
+
+    def _check_pref(self, aln, kv, pref, kept, maxid, cnt):
+        """the preference rule decides which representative survives: a dropped row must reach the threshold with a kept row
+        that the rule prefers at least as much (ties are the sort's business): conscover = consensus columns within the
+        row's first..last residue; origorder / text mode = smaller index. (random: the kept set is compared exactly.)"""
+        rows, n = aln.rows, len(aln.rows)
+        ks = set(kept)
+        if pref == 3: key = lambda i: -i
+        elif pref == 1:
+            alen = len(rows[0])
+            ft = struct.unpack("<f", struct.pack("<I", int(kv["ft"], 16)))[0] if "ft" in kv else 0.5
+            sf = struct.unpack("<f", struct.pack("<I", int(kv["sf"], 16)))[0] if "sf" in kv else 0.5
+            if aln.rf is not None and not int(kv.get("irf", 0)): cols = [j for j in range(alen) if aln.rf[j] not in GAPCH]
+            elif int(kv.get("as", 1)) and n > int(kv.get("st", 50000)): return None       # consensus from a random sample of rows
+            else: cols = self._cons_by_all(aln, ft, sf)
+            if not cols: cols = list(range(alen))
+            cover = []
+            for r in rows:
+                res = [j for j in range(alen) if aln.is_res(r[j])]
+                cover.append(sum(1 for j in cols if res[0] <= j <= res[-1]) if res else 0)
+            key = cover.__getitem__
+        else: return None
+        for r in range(n):
+            if r in ks: continue
+            if not any(aln.pidx(r, k) >= maxid and key(k) >= key(r) for k in kept):
+                return "row %d was dropped although every kept row it reaches the threshold with ranks below it in the %s preference" % (
+                    r, "consensus-coverage" if pref == 1 else "original-order")
+        cnt("pref-%d" % pref)
+        return None
+
     def _check_partition(self, c, nc, comp):
         n = len(c)
         if len(comp) != n: return "assignment has wrong length"
@@ -1359,7 +1431,7 @@ class C16(Prop):
                 for j in range(alen):
                     gap = sum(1 for r, (a, b) in zip(rows, spans) if a <= j <= b and r[j] == K)
                     tot = sum(1 for r, (a, b) in zip(rows, spans) if a <= j <= b and r[j] < Kp - 2)
-                    if tot > 0 and f32(gap / tot) < sf: cols.append(j)
+                    if tot > 0 and ((f32((tot - gap) / tot) >= sf) if getattr(self, "_residue_form", False) else (f32(gap / tot) < sf)): cols.append(j)
             if not cols: cols = list(range(alen))
             if f is not None and not sampled:
                 got = [int(x) - 1 for x in f["cons"].split(",")] if f["cons"] != "-" else []
